@@ -68,6 +68,38 @@ def run(ck, m):
                 kind = "complete"
             elif b in (f"not {arg}.endswith(ctlseqs.CSI_b)", f"not {arg}.endswith(CSI_b)"):
                 kind = "prefix"
+        if kind is None and isinstance(more, ast.Lambda):
+            # `not s.endswith(X)` with X a constant that is neither the DA1 final byte nor the CSI introducer: the read stops on something
+            # that is not (the start of) the LAST requested reply
+            mm_ = match_expr(f"not {more.args.args[0].arg}.endswith($x)", more.body)
+            if mm_ is not None:
+                from tiv.constfold import UNKNOWN as _U
+
+                def _val(e_, depth=3):
+                    if isinstance(e_, ast.Constant):
+                        return e_.value
+                    if isinstance(e_, (ast.Tuple, ast.List)):
+                        vs = [_val(x, depth) for x in e_.elts]
+                        return _U if any(v is _U for v in vs) else tuple(vs)
+                    nm_ = (dotted(e_) or "?").split(".")[-1]
+                    if nm_.endswith("_b") and isinstance(env.get(nm_[:-2]), str):
+                        return env[nm_[:-2]]
+                    if isinstance(env.get(nm_), str):
+                        return env[nm_]
+                    if depth > 0 and isinstance(e_, ast.Name):
+                        d_ = next((st_.value for st_ in m.tree(U).body if isinstance(st_, ast.Assign) and any(norm(t_) == nm_ for t_ in st_.targets)), None)
+                        if d_ is not None:
+                            return _val(d_, depth - 1)
+                    return _U
+                xv = _val(mm_["x"])
+                if xv is not _U:
+                    vals = list(xv) if isinstance(xv, (tuple, list)) else [xv]
+                    vals = [v.decode("latin-1") if isinstance(v, bytes) else v for v in vals]
+                    okv = all(v in ("c", "\x1b[") for v in vals)
+                    ck.ob("R1", enclosing_stmt(c), okv, f"{q}: the read stops at {vals!r}, which is not (the start of) the DA1 reply that ends the request: the DA1 reply may arrive in a later "
+                          "burst than the non-blocking drain looks at and stays unread on the terminal, to be misread by the next query or echoed to the user", stmt=f"{q}: stop predicate waits for the DA1 reply")
+                    if not okv:
+                        continue
         ck.expect(kind is not None, f"{q}: stop predicate `{short(more, 50)}` is not one of the two recognised forms")
         if kind is None:
             continue
@@ -315,6 +347,14 @@ def run(ck, m):
     names = [set(e.value for e in n.comparators[0].elts) for n in body_walk(isup) if isinstance(n, ast.Compare) and isinstance(n.ops[0], ast.In) and isinstance(n.comparators[0], ast.Set)]
     ck.ob("R5", isup, names == [{"iterm2", "konsole", "wezterm"}] and version_bounds(isup) == [("GtE", (22, 4, 0))] and any(norm(n) in ("name != 'konsole'", "name == 'konsole'") for n in body_walk(isup)),
           f"iterm2 style is supported on iterm2, wezterm, or konsole >= 22.4.0; found names {names}, bounds {version_bounds(isup)}", stmt="ITerm2Image.is_supported: rule")
+    parses = [c for c in body_walk(isup) if isinstance(c, ast.Call) and ((call_name(c) or "") == "int" or ((call_name(c) or "") == "map" and c.args and norm(c.args[0]) == "int")) and "version" in norm(c)]
+    ck.expect(len(parses) >= 1, "ITerm2Image.is_supported: the dotted-integer version parse not found")
+    from tiv.sem import econds as _econds
+    for c in parses:
+        cds = _econds(isup, c)
+        ck.ob("R5", enclosing_stmt(c), bool({"name == 'konsole'", "not name != 'konsole'"} & cds),
+              f"the dotted-integer version parse `{short(c, 50)}` runs for terminals other than konsole (conditions: {sorted(cds)[:4]}): iTerm2 betas and WezTerm (date-hash versions) raise ValueError there "
+              "and are then reported as unsupported", stmt="ITerm2Image.is_supported: version parsed only for konsole")
     for fn_, nm in ((ks, "KittyImage"), (isup, "ITerm2Image")):
         ini = next((st for t, st in stores_in(ast.Module(body=fn_.body, type_ignores=[])) if norm(t) == "cls._supported" and norm(st.value) == "False"), None)
         ck.ob("R5", fn_, ini is not None, f"{nm}.is_supported must default to not supported when there is no (valid) reply", stmt=f"{nm}.is_supported: defaults to False")
